@@ -101,8 +101,29 @@ Bol       == [k |-> "bol"]
 Eol       == [k |-> "eol"]
 Eos       == [k |-> "eos"]
 Word(w)   == Cat([i \in 1..Len(w) |-> Chr({w[i]})])          \* a literal word given as <<"a","b",...>>
+\* (round 4) counted repetition r{lo,hi} (hi = -1: r{lo,}), a group under IGNORECASE (?i:r), and the anchors under
+\* MULTILINE (?m:^) (?m:$).  Non-capturing groups need no term of their own: every cat / alt / repetition operand is
+\* rendered as (?:...) by gamma.
+Times(r, lo, hi) == [k |-> "rep", r |-> r, lo |-> lo, hi |-> hi]
+NoCase(r) == [k |-> "ci", r |-> r]
+MBol      == [k |-> "mbol"]
+MEol      == [k |-> "meol"]
+LowerSeq == <<"a","b","c","d","e","f","g","h","i","j","k","l","m","n","o","p","q","r","s","t","u","v","w","x","y","z">>
+UpperSeq == <<"A","B","C","D","E","F","G","H","I","J","K","L","M","N","O","P","Q","R","S","T","U","V","W","X","Y","Z">>
+SwapCase(c) == IF \E q \in 1..26 : LowerSeq[q] = c THEN UpperSeq[CHOOSE q \in 1..26 : LowerSeq[q] = c]
+               ELSE IF \E q \in 1..26 : UpperSeq[q] = c THEN LowerSeq[CHOOSE q \in 1..26 : UpperSeq[q] = c] ELSE c
+CaseClose(S) == S \cup {SwapCase(c) : c \in S}
+\* the term that (?i:re) stands for on ASCII text: every character class closed under case (a negated class
+\* [^a] under IGNORECASE excludes both cases: the closure is taken before the negation)
+RECURSIVE Fold(_)
+Fold(re) == CASE re.k = "chr" -> [k |-> "chr", s |-> CaseClose(re.s), neg |-> re.neg]
+              [] re.k \in {"cat", "alt"} -> [k |-> re.k, a |-> [q \in 1..Len(re.a) |-> Fold(re.a[q])]]
+              [] re.k \in {"star", "plus", "opt"} -> [k |-> re.k, r |-> Fold(re.r)]
+              [] re.k = "rep" -> [k |-> "rep", r |-> Fold(re.r), lo |-> re.lo, hi |-> re.hi]
+              [] re.k = "ci" -> Fold(re.r)
+              [] OTHER -> re
 
-RECURSIVE Ends(_, _, _), CatEnds(_, _, _, _), Closure(_, _, _, _)
+RECURSIVE Ends(_, _, _), CatEnds(_, _, _, _), Closure(_, _, _, _), RepEnds(_, _, _, _, _, _)
 Ends(re, t, i) ==
   CASE re.k = "chr"  -> IF i <= Len(t) /\ ((t[i] \in re.s) # re.neg) THEN {i + 1} ELSE {}
     [] re.k = "cat"  -> CatEnds(re.a, 1, t, {i})
@@ -113,6 +134,17 @@ Ends(re, t, i) ==
     [] re.k = "bol"  -> IF i = 1 THEN {i} ELSE {}
     [] re.k = "eol"  -> IF i = Len(t) + 1 \/ (i = Len(t) /\ t[i] = NL) THEN {i} ELSE {}
     [] re.k = "eos"  -> IF i = Len(t) + 1 THEN {i} ELSE {}
+    [] re.k = "rep"  -> RepEnds(re.r, t, {i}, 0, re.lo, re.hi)
+    [] re.k = "ci"   -> Ends(Fold(re.r), t, i)
+    [] re.k = "mbol" -> IF i = 1 \/ t[i - 1] = NL THEN {i} ELSE {}                   \* MULTILINE ^ : at the start and after every newline
+    [] re.k = "meol" -> IF i = Len(t) + 1 \/ t[i] = NL THEN {i} ELSE {}             \* MULTILINE $ : at the end and before every newline
+\* P = the positions reached after exactly cnt iterations of r
+RepEnds(r, t, P, cnt, lo, hi) ==
+  IF P = {} THEN {}
+  ELSE IF cnt < lo THEN RepEnds(r, t, UNION {Ends(r, t, p) : p \in P}, cnt + 1, lo, hi)
+  ELSE IF hi < 0 THEN Closure(r, t, P, P)
+  ELSE IF cnt >= hi THEN P
+  ELSE P \cup RepEnds(r, t, UNION {Ends(r, t, p) : p \in P}, cnt + 1, lo, hi)
 CatEnds(a, n, t, P) == IF n > Len(a) \/ P = {} THEN P ELSE CatEnds(a, n + 1, t, UNION {Ends(a[n], t, p) : p \in P})
 Closure(r, t, frontier, acc) ==
   IF frontier = {} THEN acc
@@ -649,4 +681,108 @@ AlgDumpedLeaf(ctx, secret) == Ser(RV("SecretStr", secret)).t
 \* Ref: the secret does not occur in the dump -- unless it also occurs in the dump of the same configuration holding a
 \* DIFFERENT secret (then it is part of the scaffolding: a key, a comment, the mask itself)
 RefNoLeak(secret, dumped, scaffold) == ~Occurs(secret, dumped) \/ Occurs(secret, scaffold)
+
+(***************************************************************************)
+(* Part 8 (round 4).  Parser modes other than YAML.                        *)
+(* ArgumentParser(parser_mode = m) decides (a) the loader that load_value  *)
+(* gives every str to (_loaders_dumpers.py:193-214, loaders[m]), (b) the   *)
+(* exceptions of that loader that mean "keep the text"                     *)
+(* (get_loader_exceptions, :165-177) and (c) the default dump format       *)
+(* (dump_using_format :262-264: json -> compact JSON, jsonnet -> indented  *)
+(* JSON, toml -> TOML).                                                    *)
+(*   json    json.loads raises only JSONDecodeError: never a crash         *)
+(*   toml    toml loads raises only its decode error: never a crash        *)
+(*   jsonnet jsonnet_load (:131-143): the snippet is evaluated; when that  *)
+(*           fails the text goes to yaml_load.  The TypeError of :90       *)
+(*           (non-string key + ":") escapes as in YAML mode; the           *)
+(*           ValueError of PyYAML's constructors ("._", "0x_") is one of   *)
+(*           the mode's loader exceptions (:176 adds ValueError), so the   *)
+(*           text is kept.  Texts with a non-string key and a null value   *)
+(*           are no jsonnet expressions ("1:" and "{1}" do not evaluate).  *)
+(* json.dumps / the TOML writer always quote a str, and their readers give *)
+(* it back unchanged (trusted), so nothing is misread in these modes.      *)
+(***************************************************************************)
+Modes == {"yaml", "json", "jsonnet", "toml"}
+CtorCrash(u) == FloatCtorCrash(u) \/ IntCtorCrash(u)
+KeyOfColon(u) == Strip(SubSeq(u, 1, Len(u) - 1))
+KeyOfFlow(u)  == Strip(SubSeq(u, 2, Len(u) - 1))
+\* the TypeError of yaml_load :90 is reached: the constructors succeeded first
+YamlKeyTypeError(u) == \/ (KeyColonCrash(u) /\ ~CtorCrash(KeyOfColon(u)))
+                       \/ (FlowKeyCrash(u) /\ ~CtorCrash(KeyOfFlow(u)))
+ModeLoaderCrash(mode, t) ==
+  CASE mode = "yaml"    -> LoaderCrash(t)
+    [] mode = "jsonnet" -> LET u == Strip(t) IN u # << >> /\ YamlKeyTypeError(u)
+    [] OTHER            -> FALSE
+\* Alg: one registered value through a parser of the given mode.  alg / dev = <<file, cli>>: the config file in the
+\* mode's own dump format, and the command line.
+RegFactsM(v, dcls, mode) ==
+  LET rep   == Ser(v)
+      crash == rep.k = "str" /\ ModeLoaderCrash(mode, rep.t)
+      mis   == mode = "yaml" /\ rep.k = "str" /\ YamlPlainMisread(rep.t)
+      plain == IF crash THEN "reject" ELSE DeserBack(v, rep)
+      file  == IF crash THEN "reject" ELSE IF mis THEN DeserBack(v, AlgReadBack("yaml", rep)) ELSE plain
+      decf  == IF DecExact(v.f) THEN "eq" ELSE "via-float"
+      decc  == CASE dcls = "le15" -> "eq" [] dcls = "gt17" -> "via-float" [] OTHER -> "eq|via-float"
+  IN IF v.ty = "Decimal"
+     THEN [rep |-> rep, mis |-> FALSE, crash |-> FALSE, alg |-> <<decf, decc>>,
+           dev |-> <<IF DecExact(v.f) THEN "none" ELSE "float-serializer", IF dcls = "le15" THEN "none" ELSE "float-serializer">>]
+     ELSE [rep |-> rep, mis |-> mis, crash |-> crash, alg |-> <<file, plain>>,
+           dev |-> IF crash THEN <<"loader-crash", "loader-crash">> ELSE <<IF mis THEN "yaml-str-as-float" ELSE "none", "none">>]
+MChanIdx(chan) == IF chan = "file" THEN 1 ELSE 2
+
+(***************************************************************************)
+(* Part 9 (round 4).  Registered values inside containers, as dataclass    *)
+(* fields and as defaults.                                                 *)
+(*   "list" List[T]   "dict" Dict[str,T]   "optional" Optional[T]          *)
+(*   "union" Union[T,int]   "dataclass" a field p: T of a dataclass        *)
+(*   "default" the value is the argument's default (never given)           *)
+(* Ref: the whole configuration comes back equal ("eq"), whatever the      *)
+(* context.  Alg: the leaf is serialised and deserialised by the same      *)
+(* registered pair (adapt_typehints recurses to the registered branch,     *)
+(* _typehints.py:803-808); what differs is WHO hands a str to load_value:  *)
+(* ActionTypeHint._check_type does it for the value of the argument itself *)
+(* (_typehints.py:563) -- the top-level str of bare / Optional / Union /   *)
+(* default, and of a dataclass field (which is an argument of its own) --  *)
+(* but never for the items of a list or the values of a dict, which reach  *)
+(* the deserializer as they were loaded.  So the named deviation           *)
+(* loader-crash does not exist inside List / Dict.                         *)
+(***************************************************************************)
+RegContexts == {"list", "dict", "optional", "union", "dataclass", "default"}
+LoadsLeafText(ctx) == ctx \notin {"list", "dict"}
+\* texts that load_value turns into None: the null scalars, a comment, an anchor on nothing.  For Optional[T] the first
+\* attempt (on the loaded value) then succeeds with None and the text is never tried (_typehints.py:582): a registered
+\* value whose representation is such a text comes back as None.  Property C20 speaks about the types in isolation and
+\* `--x=null` is the documented spelling of None, so Ref does not pin this outcome (RefRoundTripCtx allows both); the
+\* Alg layer names it "null-text".
+LoadsAsNull(t) == LET u == Strip(t) IN
+                  u # << >> /\                                     \* a blank text is never given to load_value (_util.py:144)
+                  (\/ LoaderTag(u) = "null"
+                   \/ u[1] = "#"
+                   \/ (Len(u) >= 2 /\ u[1] = "&" /\ ~HasChar(u, " ")))
+RefRoundTripCtx(v, ctx, chan) == IF ctx = "optional" /\ Ser(v).k = "str" /\ LoadsAsNull(Ser(v).t) THEN "eq|other" ELSE "eq"
+RefAllows(ref, observed) == observed = ref \/ (ref = "eq|other" /\ observed \in {"eq", "other"})
+RegFactsCtx(v, dcls, ctx) ==
+  LET F == RegFacts(v, dcls) IN
+  IF v.ty = "Decimal" /\ ~LoadsLeafText(ctx)
+  THEN \* the items of a list given on the command line are loaded by YAML: a float arrives, as from a file
+       [rep |-> F.rep, mis |-> FALSE, crash |-> FALSE, alg |-> <<F.alg[1], F.alg[2], F.alg[1]>>, dev |-> <<F.dev[1], F.dev[2], F.dev[1]>>]
+  ELSE IF F.crash /\ ~LoadsLeafText(ctx)
+  THEN LET plain == DeserBack(v, F.rep)
+           yaml  == IF F.mis THEN DeserBack(v, AlgReadBack("yaml", F.rep)) ELSE plain
+       IN [rep |-> F.rep, mis |-> F.mis, crash |-> FALSE, alg |-> <<yaml, plain, plain>>,
+           dev |-> <<IF F.mis THEN "yaml-str-as-float" ELSE "none", "none", "none">>]
+  ELSE IF ctx = "optional" /\ F.rep.k = "str" /\ ~F.crash /\ LoadsAsNull(F.rep.t)
+  THEN [rep |-> F.rep, mis |-> F.mis, crash |-> FALSE, alg |-> <<"other", "other", "other">>, dev |-> <<"null-text", "null-text", "null-text">>]
+  ELSE F
+
+\* os.PathLike is registered with serializer str and deserializer str (typing.py:385): the parsed value is the str
+\* itself, and the deserializer accepts ANY loaded value.  _check_type gives the text to load_value first (part 5) and
+\* the first attempt str(loaded value) always succeeds, so a text that YAML loads as None / a list / a mapping is
+\* replaced by Python's str() of what was loaded ("null" -> "None", "a: b" -> "{'a': 'b'}"): named deviation
+\* "loaded-value-stringified".  ld = what load_value makes of the text (as in part 5).  A crash text cannot even be
+\* dumped (dump validates the configuration, which parses the str again).
+PathLikeFacts(t, ld) ==
+  LET out == CASE ld = "crash" -> "reject" [] ld = "text" -> "eq" [] OTHER -> "other"
+      dv  == CASE ld = "crash" -> "loader-crash" [] ld = "text" -> "none" [] OTHER -> "loaded-value-stringified"
+  IN [rep |-> Str(t), mis |-> FALSE, crash |-> ld = "crash", alg |-> <<out, out, out>>, dev |-> <<dv, dv, dv>>]
 =============================================================================
